@@ -74,7 +74,7 @@ pub fn gen_req(rng: &mut Rng, keep: bool, noise_level: u64, mc: usize, bufsize: 
     }
     // a Filter only becomes writeable at its final stream; `w` gets it there (discarding unread earlier streams)
     let wants_output = rng.chance(3, 4);
-    let mut opens = false;
+    let mut opens = false; let mut leak = false;
     if wants_output {
         if streams.len() > 1 { ops.push("w".into()); }
         opens = true;
@@ -88,9 +88,12 @@ pub fn gen_req(rng: &mut Rng, keep: bool, noise_level: u64, mc: usize, bufsize: 
             if !data.is_empty() { outs.push((if which == 0 { T_STDOUT } else { T_STDERR }, data)); }
             if rng.chance(1, 5) { ops.push(format!("F{which}")); }
         }
-        ops.push("d0".into()); ops.push("d1".into());
+        // rarely a StreamWriter is still alive when the handler returns: close() must fail ("StreamWriter(s) not dropped"),
+        // no epilogue is written and the connection is torn down
+        leak = allow_handler_err && rng.chance(1, 12);
+        match (leak, rng.below(3)) { (false, _) => { ops.push("d0".into()); ops.push("d1".into()); } (true, 0) => ops.push("d0".into()), (true, 1) => ops.push("d1".into()), _ => {} }
     }
-    let (tok, ret) = if allow_handler_err && rng.chance(1, 10) { let k = *rng.pick(&["other", "invalid", "eof", "aborted"]); (format!("E{k}"), Ret::Err(k)) } else { status_token(rng) };
+    let (tok, ret) = if leak { let (t, _) = status_token(rng); (t, Ret::Err("writers")) } else if allow_handler_err && rng.chance(1, 10) { let k = *rng.pick(&["other", "invalid", "eof", "aborted"]); (format!("E{k}"), Ret::Err(k)) } else { status_token(rng) };
     if !tok.is_empty() { ops.push(tok); }
     let script = if ops.is_empty() { "-".to_string() } else { ops.join(",") };
     ReqPlan { pre, contents, recs, pre_len, owed, script, reads_all, outs, ret, opens }
@@ -113,6 +116,7 @@ pub fn check_conn(or: &mut Oracle, log: &Log, prop: &str, plans: &[ReqPlan], tr:
     let (recs, partial, bad) = decode_log(&tr.wlog);
     if let Some(b) = bad { or.fail(format!("bytes written to the client are not a record sequence: {b}"), log.replay_block(), format!("{prop}:log-malformed")); return; }
     if !partial.is_empty() && !faults { or.fail(format!("byte log ends inside a record ({} stray bytes)", partial.len()), log.replay_block(), format!("{prop}:log-partial")); }
+    if let Some(a) = tr.events.iter().find(|e| e.starts_with("ACC!")) { or.fail(format!("Request accessors (env_len / contains_var / get_var / get_var_str) disagree with env_iter: {a}"), log.replay_block(), format!("{prop}:accessors")); }
     // handler invocations
     let hs: Vec<&String> = tr.events.iter().filter(|e| e.starts_with("HS(")).collect();
     let he: Vec<&String> = tr.events.iter().filter(|e| e.starts_with("HE(")).collect();
@@ -497,6 +501,12 @@ pub fn run_c12(ctx: &mut Ctx) {
         let mut offs: Vec<usize> = if thorough { (0..=wire.len()).collect() } else { let mut v: Vec<usize> = (0..=wire.len()).step_by(7.max(wire.len() / 40)).collect(); let mut p = 0; for pl in &plans { for r in &pl.recs { p += r.ser().len(); v.extend([p.saturating_sub(1), p, (p + 1).min(wire.len()), (p + 8).min(wire.len())]); } } v.sort(); v.dedup(); v };
         offs.retain(|&o| o <= wire.len());
         for o in offs { faults.push((format!("eof@{o}"), format!("t.run B={b} mc={mc} in={} end=eof rd={rd} wr={wr} fl=- stop=none h={hs}", hexd(&wire[..o])))); }
+        // hostile bytes instead of a fault of the transport: the version byte of one record header is not 1 (UnknownVersion is
+        // fatal for both parsers; in the stream phase it reaches the handler as an InvalidData error)
+        { let mut starts = vec![]; let mut p = 0usize; for pl in &plans { for r in &pl.recs { starts.push(p); p += r.ser().len(); } }
+          let step = if thorough || starts.len() <= 40 { 1 } else { starts.len() / 40 };
+          for (j, &st) in starts.iter().enumerate().step_by(step) { let mut w2 = wire.clone(); w2[st] = if j % 2 == 0 { 2 } else { 0 };
+              faults.push((format!("badver@{st}"), format!("t.run B={b} mc={mc} in={} end=eof rd={rd} wr={wr} fl=- stop=none h={hs}", hexd(&w2)))); } }
         let set_nth = |script: &str, n: usize, what: &str| -> String { let mut v: Vec<String> = if script == "-" { vec![] } else { script.split(',').map(|s| s.to_string()).collect() }; while v.len() <= n { v.push("A".into()); } v[n] = what.into(); v.join(",") };
         let step = if thorough || nreads <= 100 { 1 } else { (nreads / 100).max(1) };
         // transport errors come in two flavours: a kind the library never produces itself, and kind ConnectionAborted (ek=a),
